@@ -772,6 +772,7 @@ func genC05(c *Ctx) {
 		}
 	}
 	genC05Dec(c)
+	genC05R4(c)
 }
 
 // --- 7. decoder configurations x value types that use the decoder's state
@@ -1253,6 +1254,26 @@ func c05Regressions(c *Ctx) {
 	if out8 := c.Emit("c05.dec", in8, "regression|dec-library"); out8.String() != "((b00000101 n2a) (b10000101 n7))" {
 		c.Fail("c05.dec", in8, "value-inside-vs-outside", "a dictionary whose value is a reference to a library cell, decoded with a library resolver, gives "+trunc(out8.String(), 120))
 	}
+	// leaf counting over a same-bit label (seeded change C05-r4m1: loadLabelSize skipped the value bit):
+	// Bits256 keys 1..10 and 1..11 under a root label of 255 ones written in the hml_same form
+	k9 := []c05KV{{strings.Repeat("1", 255) + "0", 1}, {strings.Repeat("1", 256), 2}}
+	t9 := c05Build(k9)
+	t9.chooseForms(c.R.Fork(4), "same")
+	p9, _ := t9.cells(256)
+	in9 := sx.L(sx.Nat(256), sx.B(true), (&c05Cell{bits: "1", refs: []*c05Cell{p9}}).sx())
+	if out9 := c.Emit("c05.count", in9, "regression|count-same"); out9.String() != "n2" {
+		c.Fail("c05.count", in9, "leaf-count", "a dictionary of two 256-bit keys under a same-bit root label is counted as "+out9.String())
+	}
+	// CloneKeepingSubsetOfKeys must not touch the source (seeded change C05-r4m2: filtered into the source's slices)
+	var k10 []c05KV
+	for _, k := range []uint32{0, 1, 2, 4, 5, 17} {
+		k10 = append(k10, c05KV{c05U32Bits(k), 100 + k})
+	}
+	s10 := []sx.V{st("items"), st("clone", sx.L(sx.Bits(c05U32Bits(5)), sx.Bits(c05U32Bits(17)))), st("items"),
+		sx.L(sx.A("items"), sx.Nat(1)), st("get", sx.Bits(c05U32Bits(0))), sx.L(sx.A("put"), sx.Nat(1), sx.Bits(c05U32Bits(3)), sx.N(7)),
+		st("items"), st("marshal"), sx.L(sx.A("marshal"), sx.Nat(1))}
+	in10 := sx.L(sx.L(sx.A("new"), c05ItemsSx(k10)), sx.L(s10...))
+	c05CfgOracle(c, in10, c.Emit("c05.cfg", in10, "regression|clone"), s10, k10, true)
 }
 
 // Known finding addr-workchain-int8 (C05_address_workchain_int8_refuted): replayed on
@@ -1272,4 +1293,467 @@ func c05KnownFindings(c *Ctx) {
 		c.Fail("c05.decode", in, "addr-workchain-int8",
 			"tlb.AddressWithWorkchain.Workchain is int8 but the dictionary key carries an int32 workchain: a valid dictionary key with workchain 256 decodes to a key with workchain 0 (distinct keys can collapse)")
 	}
+}
+
+// ---- round 4 streams -----------------------------------------------------------
+
+func c05U32Bits(v uint32) string { return c05Bin(int(v>>16), 16) + c05Bin(int(v&0xffff), 16) }
+
+// forks of a tree, any order
+func (t *c05Tree) forks(out *[]*c05Tree) {
+	if t.leaf {
+		return
+	}
+	*out = append(*out, t)
+	t.l.forks(out)
+	t.r.forks(out)
+}
+
+func genC05R4(c *Ctx) {
+	r := c.R
+	maxSize := c.Scale(60, 400)
+
+	// --- 8a. the size-only label parser on single labels of every form
+	ms := []int{0, 1, 2, 3, 7, 8, 9, 15, 16, 31, 32, 63, 64, 127, 128, 255, 256, 257, 288, 511, 512, 1023}
+	for i, nl := 0, c.Scale(800, 8000); i < nl; i++ {
+		m := ms[r.Intn(len(ms))]
+		if r.Chance(20) {
+			m = r.Intn(600)
+		}
+		ll := 0
+		if m > 0 {
+			switch r.Intn(4) {
+			case 0:
+				ll = m
+			case 1:
+				ll = r.Intn(minInt(m, 9) + 1)
+			default:
+				ll = r.Intn(m + 1)
+			}
+		}
+		lbl := c05RandBits(r, ll)
+		form := []string{"s", "l", "a0", "a1"}[r.Intn(4)]
+		if form == "a0" || form == "a1" {
+			lbl = strings.Repeat(form[1:], ll)
+		}
+		rest := c05RandBits(r, r.Intn(40))
+		bits := c05Label(form, m, lbl) + rest
+		cls := "valid-" + form
+		wantLen, wantUnread := ll, ll+len(rest)
+		if form[0] == 'a' {
+			wantUnread = len(rest)
+		}
+		valid := true
+		if r.Chance(15) { // arbitrary bits / truncated labels
+			valid = false
+			cls = "random"
+			if r.Bool() && len(bits) > 0 {
+				bits = bits[:r.Intn(len(bits))]
+				cls = "truncated"
+			} else {
+				bits = c05RandBits(r, r.Intn(60))
+			}
+		}
+		if len(bits) > 1023 {
+			continue
+		}
+		in := sx.L(sx.Nat(m), sx.Bits(bits))
+		out := c.Emit("c05.lsize", in, cls)
+		if valid && out.String() != sx.L(sx.Nat(wantLen), sx.Nat(wantUnread)).String() {
+			c.Fail("c05.lsize", in, "label-size", fmt.Sprintf("loadLabelSize on a valid %s label of %d bits (m = %d) followed by %d bits answers %s, expected (%d %d)", form, ll, m, len(rest), out, wantLen, wantUnread))
+		}
+	}
+
+	// --- 8b. leaf counting on plain dictionaries of every key width and label mode
+	modes := []string{"go", "short", "long", "same", "random"}
+	nCnt := c.Scale(10, 80)
+	for _, kt := range c05KeyTypes {
+		if kt.signed {
+			continue
+		}
+		for _, mode := range modes {
+			for i := 0; i < nCnt; i++ {
+				shape := c05Shapes[r.Intn(len(c05Shapes))]
+				if mode == "same" && r.Bool() {
+					shape = "runs"
+				}
+				var kvs []c05KV
+				for _, k := range c05KeySet(r, kt.n, 1+c05PickSize(r, maxSize-1), shape) {
+					kvs = append(kvs, c05KV{k, uint32(r.U64())})
+				}
+				kvs = c05SortedDistinct(kvs)
+				t := c05Build(kvs)
+				t.chooseForms(r, mode)
+				mut := ""
+				if r.Chance(15) {
+					mut = c05MutateTree(r, t)
+				}
+				pc, _ := t.cells(kt.n)
+				if mut != "" {
+					c05MutateCell(r, pc, &mut)
+				}
+				if !c05CellOK(pc) {
+					continue
+				}
+				e := r.Chance(60)
+				root := pc
+				if e {
+					root = &c05Cell{bits: "1", refs: []*c05Cell{pc}}
+				}
+				cls := fmt.Sprintf("%s|%s", c05Family(kt), mode)
+				if mut != "" {
+					cls = "malformed"
+				}
+				in := sx.L(sx.Nat(kt.n), sx.B(e), root.sx())
+				out := c.Emit("c05.count", in, cls)
+				if mut == "" && out.String() != sx.Nat(len(kvs)).String() {
+					c.Fail("c05.count", in, "leaf-count", fmt.Sprintf("a valid dictionary with %d entries (label forms: %s) is counted as %s", len(kvs), mode, out))
+				}
+				// whatever decodes has as many entries as are counted
+				n := kt.n
+				if n == 288 {
+					n = 0 // the key type truncates mutated workchains; decode is compared elsewhere
+				}
+				if dec := safeExec("c05.decode", sx.L(sx.Nat(n), sx.B(e), root.sx())); n > 0 && dec.K == sx.KL && dec.Head() != "harness-error" {
+					if out.String() != sx.Nat(len(dec.List)).String() {
+						c.Fail("c05.count", in, "leaf-count", fmt.Sprintf("the dictionary decodes to %d entries but is counted as %s", len(dec.List), out))
+					}
+				}
+			}
+		}
+	}
+	c.Emit("c05.count", sx.L(sx.Nat(256), sx.B(true), (&c05Cell{bits: "0"}).sx()), "empty")
+	c.Emit("c05.count", sx.L(sx.Nat(256), sx.B(true), (&c05Cell{bits: ""}).sx()), "empty")
+	c.Emit("c05.count", sx.L(sx.Nat(256), sx.B(true), (&c05Cell{bits: "1"}).sx()), "empty")
+
+	// --- 8c. augmented dictionaries (decode only): HashmapAugE[key, Uint32, Uint32]
+	nAug := c.Scale(20, 160)
+	for _, n := range []int{8, 16, 32, 64, 96, 256} {
+		for _, mode := range modes {
+			for i := 0; i < nAug; i++ {
+				shape := c05Shapes[r.Intn(len(c05Shapes))]
+				if mode == "same" && r.Bool() {
+					shape = "runs"
+				}
+				var kvs []c05KV
+				for _, k := range c05KeySet(r, n, c05PickSize(r, maxSize/2), shape) {
+					kvs = append(kvs, c05KV{k, uint32(r.U64())})
+				}
+				kvs = c05SortedDistinct(kvs)
+				root := &c05Cell{bits: "0" + c05U32Bits(uint32(r.U64()))}
+				mut := ""
+				if len(kvs) > 0 {
+					t := c05Build(kvs)
+					t.chooseForms(r, mode)
+					var leaves, forks []*c05Tree
+					t.leaves(&leaves)
+					t.forks(&forks)
+					for _, lf := range leaves {
+						lf.raw, lf.vbits = true, c05U32Bits(uint32(r.U64()))+c05U32Bits(lf.value)
+					}
+					for _, fk := range forks {
+						fk.xbits = c05U32Bits(uint32(r.U64()))
+					}
+					if r.Chance(12) { // an extra is missing or short
+						mut = "extra"
+						if len(forks) > 0 && r.Bool() {
+							fk := forks[r.Intn(len(forks))]
+							fk.xbits = fk.xbits[:r.Intn(32)]
+						} else {
+							lf := leaves[r.Intn(len(leaves))]
+							lf.vbits = lf.vbits[:r.Intn(64)]
+						}
+					}
+					pc, fits := t.cells(n)
+					if !fits {
+						continue
+					}
+					if mut == "" && r.Chance(10) {
+						c05MutateCell(r, pc, &mut)
+						if mut == "" {
+							mut = "cell"
+						}
+					}
+					if !c05CellOK(pc) {
+						continue
+					}
+					root = &c05Cell{bits: "1" + c05U32Bits(uint32(r.U64())), refs: []*c05Cell{pc}}
+				}
+				if mut == "" && r.Chance(4) {
+					mut = "root-extra"
+					root.bits = root.bits[:1+r.Intn(32)]
+				}
+				cls := fmt.Sprintf("%s|%s", c05Family(c05KT{n, false}), mode)
+				if mut != "" {
+					cls = "malformed"
+				}
+				in := sx.L(sx.Nat(n), root.sx())
+				out := c.Emit("c05.aug", in, cls)
+				if mut == "" && out.String() != c05ItemsSx(kvs).String() {
+					c.Fail("c05.aug", in, "aug-decode-"+mode, fmt.Sprintf("a valid augmented dictionary (label forms: %s) decodes to %s", mode, trunc(out.String(), 200)))
+				}
+				inC := sx.L(sx.Nat(n), sx.B(true), root.sx())
+				cnt := c.Emit("c05.count", inC, "aug|"+cls)
+				if out.K == sx.KL && cnt.String() != sx.Nat(len(out.List)).String() {
+					c.Fail("c05.count", inC, "leaf-count", fmt.Sprintf("an augmented dictionary decodes to %d entries but is counted as %s", len(out.List), cnt))
+				}
+			}
+		}
+	}
+
+	// --- 9. histories on tlb.ConfigParams objects: CloneKeepingSubsetOfKeys must leave the source
+	//        alone and give an independent dictionary
+	cfgCell := func(kvs []c05KV) *c05Cell {
+		t := c05Build(kvs)
+		t.chooseForms(r, "random")
+		var leaves []*c05Tree
+		t.leaves(&leaves)
+		for _, lf := range leaves {
+			lf.raw, lf.vrefs = true, []*c05Cell{{bits: c05U32Bits(lf.value)}}
+		}
+		pc, _ := t.cells(32)
+		return &c05Cell{bits: strings.Repeat("0", 256), refs: []*c05Cell{pc}}
+	}
+	for i, nh := 0, c.Scale(250, 2500); i < nh; i++ {
+		var kvs []c05KV
+		for _, k := range c05KeySet(r, 32, c05PickSize(r, 30), c05Shapes[r.Intn(len(c05Shapes))]) {
+			kvs = append(kvs, c05KV{k, uint32(r.U64())})
+		}
+		if r.Chance(30) { // small config-like key numbers
+			kvs = nil
+			for k := 0; k < 45; k++ {
+				if r.Chance(60) {
+					kvs = append(kvs, c05KV{c05U32Bits(uint32(k)), uint32(r.U64())})
+				}
+			}
+		}
+		kvs = c05SortedDistinct(kvs)
+		var build sx.V
+		bname := "dec"
+		canon := []bool{true}
+		if len(kvs) == 0 || r.Chance(40) {
+			order := kvs
+			bname = "new-ascending"
+			if r.Chance(30) {
+				order, bname = c05Shuffle(r, kvs), "new-shuffled"
+				canon[0] = false
+			}
+			build = sx.L(sx.A("new"), c05ItemsSx(order))
+		} else {
+			build = sx.L(sx.A("dec"), cfgCell(kvs).sx())
+		}
+		canon0 := canon[0]
+		refs := []map[string]uint32{{}}
+		for _, kv := range kvs {
+			refs[0][kv.k] = kv.v
+		}
+		sortedKeys := func(m map[string]uint32) []string {
+			var ks []string
+			for k := range m {
+				ks = append(ks, k)
+			}
+			sort.Strings(ks)
+			return ks
+		}
+		var steps []sx.V
+		itemsAll := func() {
+			for j := range refs {
+				steps = append(steps, sx.L(sx.A("items"), sx.Nat(j)))
+			}
+		}
+		pickKey := func(m map[string]uint32) string {
+			ks := sortedKeys(m)
+			if len(ks) > 0 && r.Chance(60) {
+				return ks[r.Intn(len(ks))]
+			}
+			return c05U32Bits(uint32(r.Intn(64)))
+		}
+		steps = append(steps, sx.L(sx.A("items"), sx.Nat(0)))
+		nclones := 0
+		for j, ns := 0, 3+r.Intn(8); j < ns; j++ {
+			o := r.Intn(len(refs))
+			switch x := r.Intn(100); {
+			case x < 35 || (j == 0):
+				ks := sortedKeys(refs[o])
+				var keep []string
+				switch r.Intn(6) {
+				case 0: // a prefix of the key list
+					keep = append(keep, ks[:r.Intn(len(ks)+1)]...)
+				case 1: // the last keys
+					keep = append(keep, ks[len(ks)-r.Intn(len(ks)+1):]...)
+				case 2: // everything
+					keep = append(keep, ks...)
+				case 3: // nothing that is there
+					keep = append(keep, c05U32Bits(uint32(1000+r.Intn(1000))))
+				default:
+					for _, k := range ks {
+						if r.Chance(35) {
+							keep = append(keep, k)
+						}
+					}
+				}
+				if r.Bool() { // absent keys and repetitions in the argument
+					keep = append(keep, c05U32Bits(uint32(r.Intn(64))))
+					if len(keep) > 1 {
+						keep = append(keep, keep[r.Intn(len(keep))])
+					}
+				}
+				for a := len(keep) - 1; a > 0; a-- { // the argument need not be sorted
+					b := r.Intn(a + 1)
+					keep[a], keep[b] = keep[b], keep[a]
+				}
+				var ka []sx.V
+				nm := map[string]uint32{}
+				for _, k := range keep {
+					ka = append(ka, sx.Bits(k))
+					if v, ok := refs[o][k]; ok {
+						nm[k] = v
+					}
+				}
+				steps = append(steps, sx.L(sx.A("clone"), sx.Nat(o), sx.L(ka...)))
+				refs = append(refs, nm)
+				canon = append(canon, canon[o])
+				nclones++
+				itemsAll()
+			case x < 60:
+				k := pickKey(refs[o])
+				v := uint32(r.U64())
+				steps = append(steps, sx.L(sx.A("put"), sx.Nat(o), sx.Bits(k), sx.N(uint64(v))))
+				refs[o][k] = v
+				itemsAll()
+			case x < 75:
+				steps = append(steps, sx.L(sx.A("get"), sx.Nat(o), sx.Bits(pickKey(refs[o]))))
+			case x < 90:
+				steps = append(steps, sx.L(sx.A("marshal"), sx.Nat(o)))
+			default:
+				var d2 []c05KV
+				for _, k := range c05KeySet(r, 32, 1+r.Intn(10), c05Shapes[r.Intn(len(c05Shapes))]) {
+					d2 = append(d2, c05KV{k, uint32(r.U64())})
+				}
+				d2 = c05SortedDistinct(d2)
+				steps = append(steps, sx.L(sx.A("decode"), sx.Nat(o), cfgCell(d2).sx()))
+				refs[o] = map[string]uint32{}
+				for _, kv := range d2 {
+					refs[o][kv.k] = kv.v
+				}
+				canon[o] = true
+				itemsAll()
+			}
+		}
+		itemsAll()
+		for j := range refs {
+			steps = append(steps, sx.L(sx.A("marshal"), sx.Nat(j)))
+		}
+		itemsAll()
+		in := sx.L(build, sx.L(steps...))
+		out := c.Emit("c05.cfg", in, fmt.Sprintf("%s|clones-%d", bname, minInt(nclones, 3)))
+		c05CfgOracle(c, in, out, steps, kvs, canon0)
+	}
+}
+
+// oracle of a c05.cfg history on the implementation's answers alone: every object answers by its
+// own mapping at every point, whatever happened to the other objects
+func c05CfgOracle(c *Ctx, in, out sx.V, steps []sx.V, kvs []c05KV, canon0 bool) {
+	if out.K != sx.KL || len(out.List) != len(steps) {
+		c.Fail("c05.cfg", in, "cfg-fail", "history on ConfigParams objects failed: "+trunc(out.String(), 120))
+		return
+	}
+	refs := []map[string]uint32{{}}
+	canon := []bool{canon0}
+	for _, kv := range kvs {
+		refs[0][kv.k] = kv.v
+	}
+	last := "build"
+	lastObj := 0
+	sortedItems := func(m map[string]uint32) []c05KV {
+		var l []c05KV
+		for k, v := range m {
+			l = append(l, c05KV{k, v})
+		}
+		return c05SortedDistinct(l)
+	}
+	for j, st := range steps {
+		res := out.List[j]
+		o := st.List[1].I()
+		switch st.Head() {
+		case "clone":
+			if !res.IsA("ok") {
+				c.Fail("c05.cfg", in, "clone-argument", fmt.Sprintf("step %d: CloneKeepingSubsetOfKeys changed its keys argument", j))
+				return
+			}
+			nm := map[string]uint32{}
+			for _, k := range st.List[2].List {
+				if v, ok := refs[o][k.Bits]; ok {
+					nm[k.Bits] = v
+				}
+			}
+			refs = append(refs, nm)
+			canon = append(canon, canon[o])
+			last, lastObj = "clone", o
+		case "put":
+			refs[o][st.List[2].Bits] = uint32(st.List[3].U64())
+			last, lastObj = "put", o
+		case "decode":
+			if !res.IsA("ok") {
+				c.Fail("c05.cfg", in, "cfg-decode", fmt.Sprintf("step %d: decoding a valid ConfigParams cell failed", j))
+				return
+			}
+			refs[o] = map[string]uint32{}
+			fresh := safeExec("c05.cfg", sx.L(sx.L(sx.A("dec"), st.List[2]), sx.L(sx.L(sx.A("items"), sx.Nat(0)))))
+			if fresh.K == sx.KL && len(fresh.List) == 1 {
+				for _, kv := range c05KVsOf(fresh.List[0]) {
+					refs[o][kv.k] = kv.v
+				}
+			}
+			canon[o] = true
+			last, lastObj = "decode", o
+		case "get":
+			want := "'none"
+			if v, ok := refs[o][st.List[2].Bits]; ok {
+				want = sx.L(sx.N(uint64(v))).String()
+			}
+			if res.String() != want {
+				c.Fail("c05.cfg", in, c05CfgKey(last, lastObj, o, "get"), fmt.Sprintf("step %d: Get on object %d answered %s, its mapping says %s (last change: %s on object %d)", j, o, res, want, last, lastObj))
+				return
+			}
+		case "items":
+			want := sortedItems(refs[o])
+			ok := res.K == sx.KL
+			if ok && canon[o] {
+				ok = res.String() == c05ItemsSx(want).String()
+			} else if ok {
+				got := c05SortedDistinct(c05KVsOf(res))
+				ok = len(res.List) == len(want) && c05EqualKVs(got, want)
+			}
+			if !ok {
+				c.Fail("c05.cfg", in, c05CfgKey(last, lastObj, o, "items"), fmt.Sprintf("step %d: Items() of object %d is %s, its mapping is %s (last change: %s on object %d)", j, o, trunc(res.String(), 160), trunc(c05ItemsSx(want).String(), 160), last, lastObj))
+				return
+			}
+		case "marshal":
+			if res.K != sx.KL || len(res.List) != 2 || len(res.List[1].List) != 1 {
+				c.Fail("c05.cfg", in, c05CfgKey(last, lastObj, o, "marshal"), fmt.Sprintf("step %d: ConfigParams object %d does not marshal: %s", j, o, trunc(res.String(), 80)))
+				return
+			}
+			if len(refs[o]) == 0 {
+				continue
+			}
+			dec := safeExec("c05.dec", sx.L(sx.Nat(32), sx.B(false), sx.A("plain"), sx.A("ref"), res.List[1].List[0], sx.L()))
+			if dec.String() != c05ItemsSx(sortedItems(refs[o])).String() {
+				c.Fail("c05.cfg", in, c05CfgKey(last, lastObj, o, "marshal"), fmt.Sprintf("step %d: the encoding of object %d decodes to %s, its mapping is %s", j, o, trunc(dec.String(), 160), trunc(c05ItemsSx(sortedItems(refs[o])).String(), 160)))
+				return
+			}
+		}
+	}
+}
+
+func c05CfgKey(last string, lastObj, o int, what string) string {
+	switch {
+	case last == "clone" && o == lastObj:
+		return "clone-changes-source"
+	case last == "clone":
+		return "clone-wrong"
+	case last == "put" && o != lastObj:
+		return "cfg-objects-share-storage"
+	}
+	return "cfg-" + what
 }
